@@ -10,6 +10,7 @@ use serde_json::{json, Value as J};
 pub const SCHEMA_SDL: &str = "schema { query: Q mutation: M subscription: S }
 directive @dq(x: Int) repeatable on QUERY | FIELD | FRAGMENT_SPREAD | INLINE_FRAGMENT | FRAGMENT_DEFINITION | VARIABLE_DEFINITION | MUTATION | SUBSCRIPTION
 directive @once on FIELD
+directive @defer(label: String, if: Boolean! = true) on FRAGMENT_SPREAD | INLINE_FRAGMENT
 type Q { a: Int b(x: Int!, y: In, e: E = A, l: [Int]): Int o: O i: I u: U s: String }
 type M { m(x: Int): Int }
 type S { t: Int o: O }
@@ -30,6 +31,10 @@ subscription S1 { t }",
     "query { u { ... on O { a c } ... on P { a k: c } } i { a a } o { n(x: 1) n(x: 1) } b(x: 1, y: {r: 1, n: {r: 2, l: [1]}}) k2: b(x: 1, l: [1, 2]) k2: b(x: 1, l: [1, 2]) }",
     "query V($l: [Int!], $n: Int = null, $b: Boolean!) { b(x: 1, l: $l, y: {r: 1, d: $n}) a @include(if: $b) ...H }
 fragment H on Q { q2: b(x: 3, l: $l) }",
+    "query D($b: Boolean!) { a ... @defer(label: \"L1\") { s } ...K @defer(label: \"L2\", if: $b) o { ... @defer { a } } }
+fragment K on Q { s o { ... @defer(label: \"L3\") { c } } }
+mutation DM { m(x: 1) }
+subscription DS($b: Boolean!) { o { a ... @defer(if: $b) { c } ... @defer(if: false, label: \"L4\") { n(x: 1) } ... @skip(if: $b) { ... @defer { c } } } }",
 ];
 
 fn value_abs(v: &ast::Value) -> J {
@@ -37,10 +42,10 @@ fn value_abs(v: &ast::Value) -> J {
         ast::Value::Null => json!(["null"]),
         ast::Value::Enum(n) => json!(["enum", n.as_str()]),
         ast::Value::Variable(n) => json!(["var", n.as_str()]),
-        ast::Value::String(_) => json!(["str"]),
+        ast::Value::String(s) => json!(["str", s.as_str()]),
         ast::Value::Float(_) => json!(["float"]),
         ast::Value::Int(i) => json!(["int", i.try_to_i32().unwrap_or(0)]),
-        ast::Value::Boolean(_) => json!(["bool"]),
+        ast::Value::Boolean(b) => json!(["bool", b]),
         ast::Value::List(items) => json!(["list", items.iter().map(|i| value_abs(i)).collect::<Vec<_>>()]),
         ast::Value::Object(fs) => json!(["obj", fs.iter().map(|(k, v)| json!({"name": k.as_str(), "value": value_abs(v)})).collect::<Vec<_>>()]),
     }
@@ -82,8 +87,8 @@ fn value_text(v: &J) -> String {
     match v[0].as_str().unwrap_or("null") {
         "int" => v[1].as_i64().unwrap_or(1).to_string(),
         "float" => "1.5".into(),
-        "str" => "\"s\"".into(),
-        "bool" => "true".into(),
+        "str" => format!("{:?}", v[1].as_str().unwrap_or("s")),
+        "bool" => v[1].as_bool().unwrap_or(true).to_string(),
         "enum" => v[1].as_str().unwrap_or("A").to_string(),
         "var" => format!("${}", v[1].as_str().unwrap_or("v")),
         "list" => format!("[{}]", v[1].as_array().unwrap_or(&vec![]).iter().map(value_text).collect::<Vec<_>>().join(", ")),
@@ -191,7 +196,7 @@ pub fn doc_mutants(d: &J) -> Vec<(String, J)> {
             continue;
         }
         if is_value_node {
-            for k in [json!(["int", 1]), json!(["int", 7]), json!(["str"]), json!(["null"]), json!(["bool"]), json!(["enum", "A"]), json!(["enum", "Z"]), json!(["var", "v"]), json!(["var", "undefinedVar"]),
+            for k in [json!(["int", 1]), json!(["int", 7]), json!(["str", "s"]), json!(["str", "L1"]), json!(["null"]), json!(["bool", true]), json!(["bool", false]), json!(["enum", "A"]), json!(["enum", "Z"]), json!(["var", "v"]), json!(["var", "undefinedVar"]),
                       json!(["list", [["int", 1]]]), json!(["list", [["int", 1], ["null"]]]), json!(["list", [["int", 1], ["int", 2]]]), json!(["obj", [{"name": "r", "value": ["int", 1]}]]), json!(["obj", [{"name": "r", "value": ["int", 1]}, {"name": "r", "value": ["int", 1]}]]),
                       json!(["obj", [{"name": "zz", "value": ["int", 1]}]]), json!(["obj", []])] {
                 if cur != k { out.push((format!("{pstr}:value={}", k), set(d, p, k))); }
@@ -217,9 +222,15 @@ pub fn doc_mutants(d: &J) -> Vec<(String, J)> {
                     }
                 }
                 if last == "dirs" {
+                    for (dn2, dargs) in [("defer", json!([])), ("defer", json!([{"name": "label", "value": ["str", "L1"]}])), ("defer", json!([{"name": "if", "value": ["bool", false]}])),
+                                         ("defer", json!([{"name": "if", "value": ["var", "b"]}])), ("defer", json!([{"name": "label", "value": ["var", "v"]}])), ("skip", json!([{"name": "if", "value": ["bool", false]}]))] {
+                        let mut c = a.clone();
+                        c.push(json!({"name": dn2, "args": dargs}));
+                        out.push((format!("{pstr}:apply=@{dn2}{}", dargs), set(d, p, J::Array(c))));
+                    }
                     for dn in ["dq", "once", "skip", "include", "deprecated", "undefinedDirective"] {
                         let mut c = a.clone();
-                        let args = if matches!(dn, "skip" | "include") { json!([{"name": "if", "value": ["bool"]}]) } else { json!([]) };
+                        let args = if matches!(dn, "skip" | "include") { json!([{"name": "if", "value": ["bool", true]}]) } else { json!([]) };
                         c.push(json!({"name": dn, "args": args}));
                         out.push((format!("{pstr}:apply=@{dn}"), set(d, p, J::Array(c))));
                     }
@@ -389,12 +400,16 @@ pub fn cases(args: &[String]) {
         for (what, m) in &ms {
             emit(&mut out, m, format!("doc-seed-{k}:{what}"), false);
         }
-        for _ in 0..depth2 {
+        // double mutations: the mutants of one first-level mutant are enumerated once and sampled several times
+        let per = 6;
+        for _ in 0..(depth2 + per - 1) / per {
             let (w1, m1) = &ms[rng.below(ms.len())];
             let ms2 = doc_mutants(m1);
             if ms2.is_empty() { continue; }
-            let (w2, m2) = &ms2[rng.below(ms2.len())];
-            emit(&mut out, m2, format!("doc-seed-{k}:{w1}+{w2}"), true);
+            for _ in 0..per {
+                let (w2, m2) = &ms2[rng.below(ms2.len())];
+                emit(&mut out, m2, format!("doc-seed-{k}:{w1}+{w2}"), true);
+            }
         }
     }
 }
